@@ -13,11 +13,15 @@ package main
 // program and is then executed under the monitors.
 
 import (
+	"errors"
 	"fmt"
 	"math/big"
 	"regexp"
 	"strings"
 
+	a "github.com/google/wuffs/lang/ast"
+	"github.com/google/wuffs/lang/check"
+	t "github.com/google/wuffs/lang/token"
 	"wvh/hlib"
 )
 
@@ -34,6 +38,10 @@ type Gen struct {
 	loopD int
 
 	signed bool // this program may use signed integer types
+
+	rejOps []opLine // rejected candidate assignments, as correspondence ops
+
+	conds []cond // simple comparisons guarding the block under construction
 }
 
 type scope struct {
@@ -318,6 +326,18 @@ func (g *Gen) expr(sc *scope, base string, depth int) string {
 			op = g.pick([]string{"+", "-", "*"})
 		}
 		l := g.expr(sc, base, depth-1)
+		if !baseInfo[base].Signed && baseInfo[base].Bits >= 32 && g.rng.Chance(2, 5) {
+			// a narrower operand, widened: keeps non-modular arithmetic within bounds
+			var narrow []Var
+			for _, v := range sc.numeric() {
+				if !baseInfo[v.T.Base].Signed && baseInfo[v.T.Base].Bits < baseInfo[base].Bits {
+					narrow = append(narrow, v)
+				}
+			}
+			if len(narrow) > 0 {
+				l = narrow[g.rng.Intn(len(narrow))].Name + " as base." + base
+			}
+		}
 		var r string
 		switch op {
 		case "<<", ">>", "~mod<<":
@@ -358,10 +378,13 @@ func (g *Gen) callText(sc *scope, f *Func, depth int) string {
 
 var cmpOps = []string{"<", "<=", "==", "<>", ">=", ">"}
 
-func (g *Gen) cmp(sc *scope, depth int) string {
+// cond is a simple comparison `l op r` (operands are leaves) that guards a block.
+type cond struct{ l, op, r, base string }
+
+func (g *Gen) cmpParts(sc *scope, depth int) (text string, c *cond) {
 	nums := sc.numeric()
 	if len(nums) == 0 {
-		return "true"
+		return "true", nil
 	}
 	v := nums[g.rng.Intn(len(nums))]
 	l := v.Name
@@ -374,7 +397,61 @@ func (g *Gen) cmp(sc *scope, depth int) string {
 	} else {
 		r = g.expr(sc, v.T.Base, depth)
 	}
-	return paren(l) + " " + g.pick(cmpOps) + " " + paren(r)
+	op := g.pick(cmpOps)
+	if isLeaf(l) && isLeaf(r) {
+		c = &cond{l, op, r, v.T.Base}
+	}
+	return paren(l) + " " + op + " " + paren(r), c
+}
+
+func (g *Gen) cmp(sc *scope, depth int) string {
+	s, _ := g.cmpParts(sc, depth)
+	return s
+}
+
+var invOp = map[string]string{"<": ">=", "<=": ">", "==": "<>", "<>": "==", ">=": "<", ">": "<="}
+
+// two-premise axioms "a CONCL b: a P1 c; c P2 b"
+var reasons3 = []struct{ s, concl, p1, p2 string }{
+	{"a < b: a < c; c < b", "<", "<", "<"},
+	{"a < b: a < c; c == b", "<", "<", "=="},
+	{"a < b: a == c; c < b", "<", "==", "<"},
+	{"a < b: a < c; c <= b", "<", "<", "<="},
+	{"a < b: a <= c; c < b", "<", "<=", "<"},
+	{"a <= b: a <= c; c <= b", "<=", "<=", "<="},
+	{"a <= b: a <= c; c == b", "<=", "<=", "=="},
+	{"a <= b: a == c; c <= b", "<=", "==", "<="},
+}
+
+// aimedAssert: an assert whose `via` reason has ONE premise that is a guarding
+// condition (so it is a known fact) and one premise about a random operand: it is
+// provable only if the checker can also establish the other premise.
+func (g *Gen) aimedAssert(sc *scope) *Stmt {
+	if len(g.conds) == 0 {
+		return nil
+	}
+	c := g.conds[g.rng.Intn(len(g.conds))]
+	var cands []int
+	for i, r := range reasons3 {
+		if r.p1 == c.op || r.p2 == c.op {
+			cands = append(cands, i)
+		}
+	}
+	if len(cands) == 0 {
+		return nil
+	}
+	r := reasons3[cands[g.rng.Intn(len(cands))]]
+	other := g.literal(c.base, sc)
+	if vs := sc.scalarsOf(c.base); len(vs) > 0 && g.rng.Chance(2, 3) {
+		other = vs[g.rng.Intn(len(vs))].Name
+	}
+	var a, b, cc string
+	if r.p1 == c.op && (r.p2 != c.op || g.rng.Bool()) {
+		a, cc, b = c.l, c.r, other // premise 1 is the guard
+	} else {
+		cc, b, a = c.l, c.r, other // premise 2 is the guard
+	}
+	return &Stmt{Kind: "simple", Text: fmt.Sprintf(`assert %s %s %s via "%s"(c: %s)`, a, r.concl, b, r.s, cc), Tag: "assert-aimed"}
 }
 
 func (g *Gen) boolExpr(sc *scope, depth int) string {
@@ -394,8 +471,66 @@ func (g *Gen) boolExpr(sc *scope, depth int) string {
 func (g *Gen) accepted() bool {
 	src, _ := g.p.Render(-1)
 	_, err := g.fr.Fast(src)
-	g.count("cand:" + errClass(err))
+	cls := errClass(err)
+	g.count("cand:" + cls)
+	if err != nil && len(g.rejOps) < 12 {
+		switch cls {
+		case "rej:not-within-bounds", "rej:shift-arg", "rej:div-arg", "rej:bitwise-arg", "rej:inconsistent-fact":
+			g.recordReject(src, err)
+		}
+	}
 	return err == nil
+}
+
+// recordReject: a candidate assignment that the real checker rejected in its
+// bounds phase becomes a correspondence op: the model must reject it too, under
+// the facts the real checker held just before it.
+func (g *Gen) recordReject(src string, err error) {
+	var ce *check.Error
+	if !errors.As(err, &ce) || g.fr.lastFile == nil || ce.Line == 0 {
+		return
+	}
+	file := g.fr.lastFile
+	var stmt *a.Assign
+	for _, d := range file.TopLevelDecls() {
+		if d.Kind() != a.KFunc {
+			continue
+		}
+		d.Walk(func(o *a.Node) error {
+			if o.Kind() == a.KAssign {
+				if _, ln := o.AsRaw().FilenameLine(); ln == ce.Line {
+					stmt = o.AsAssign()
+				}
+			}
+			return nil
+		})
+	}
+	if stmt == nil || stmt.LHS() == nil || stmt.RHS() == nil || !stmt.RHS().Effect().Pure() {
+		return
+	}
+	lhs, rhs := stmt.LHS(), stmt.RHS()
+	if lhs.Operator() != 0 && lhs.IsThisDotFoo() == 0 {
+		return
+	}
+	tm := g.fr.tm
+	ls, ok1 := exprSexpr(tm, lhs, nil)
+	rs, ok2 := exprSexpr(tm, rhs, nil)
+	if !ok1 || !ok2 || !strings.HasPrefix(ls, "v ") {
+		return
+	}
+	op := ""
+	if stmt.Operator() == t.IDEq {
+		op = "assign"
+	} else if nm, ok := binOpNames[stmt.Operator().BinaryForm()]; ok {
+		op = "opassign " + nm
+	} else {
+		return
+	}
+	facts, ok := g.fr.ProbeFacts(withProbe(src, int(ce.Line)))
+	if !ok {
+		return
+	}
+	g.rejOps = append(g.rejOps, opLine{"facts " + factsSexpr(tm, facts) + " " + op + " " + ls + " " + rs, "reject"})
 }
 
 // try appends s to *blk; keeps it iff the checker accepts the program.
@@ -432,6 +567,11 @@ var reasons = []string{
 func (g *Gen) simpleStmt(sc *scope) *Stmt {
 	tg := g.targets(sc)
 	k := g.rng.Intn(100)
+	if len(g.conds) > 0 && g.rng.Chance(1, 5) {
+		if s := g.aimedAssert(sc); s != nil {
+			return s
+		}
+	}
 	switch {
 	case k < 38 && len(tg) > 0:
 		v := tg[g.rng.Intn(len(tg))]
@@ -637,6 +777,9 @@ func (g *Gen) whileStmt(blk *[]*Stmt, depth int) {
 	}
 	// fill the body: candidates are inserted before the step (or after it, for
 	// count-down loops)
+	savedConds := g.conds
+	g.conds = nil
+	defer func() { g.conds = savedConds }()
 	g.loopD++
 	nb := 1 + g.rng.Intn(4)
 	for k := 0; k < nb; k++ {
@@ -680,14 +823,28 @@ func (g *Gen) block(blk *[]*Stmt, depth int, n int) {
 			k := g.rng.Intn(100)
 			switch {
 			case k < 14 && depth < 3:
-				s := &Stmt{Kind: "if", Text: g.boolExpr(sc, 1), Tag: "if"}
+				var guard *cond
+				ctext := g.boolExpr(sc, 1)
+				if g.rng.Chance(1, 2) {
+					ctext, guard = g.cmpParts(sc, 0)
+				}
+				s := &Stmt{Kind: "if", Text: ctext, Tag: "if"}
 				if !g.try(blk, s) {
 					continue
 				}
+				nc := len(g.conds)
+				if guard != nil {
+					g.conds = append(g.conds, *guard)
+				}
 				g.block(&s.Body, depth+1, 1+g.rng.Intn(3))
+				g.conds = g.conds[:nc]
 				if g.rng.Chance(1, 3) {
+					if guard != nil {
+						g.conds = append(g.conds, cond{guard.l, invOp[guard.op], guard.r, guard.base})
+					}
 					s.Else = []*Stmt{}
 					g.block(&s.Else, depth+1, 1+g.rng.Intn(2))
+					g.conds = g.conds[:nc]
 					if len(s.Else) == 0 {
 						s.Else = nil
 					}
@@ -722,6 +879,7 @@ func (g *Gen) NewProgram() *Prog {
 	p := &Prog{}
 	g.p = p
 	g.nTmp = 0
+	g.conds = nil
 	g.signed = g.rng.Chance(1, 7)
 	nf := 2 + g.rng.Intn(4)
 	for i := 0; i < nf; i++ {
@@ -781,7 +939,7 @@ func (g *Gen) NewProgram() *Prog {
 		}
 		nl := 1 + g.rng.Intn(4)
 		for j := 0; j < nl; j++ {
-			g.newLocal(g.randScalarTy(true, 20))
+			g.newLocal(g.randScalarTy(true, 35))
 		}
 		if g.rng.Chance(1, 6) {
 			ty := Ty{Base: g.pick([]string{"u8", "u32"}), ArrLen: arrLens[g.rng.Intn(6)]}
